@@ -8,6 +8,26 @@ CLAIMED = {
          "Every catalogue schema x every file of the typing-history families (seeds, every byte prefix, single-token edits, all short token strings) x every byte offset x all 16 public entry points is executed; any panic (classified by innermost hcl-lang frame) or hang is a violation. Exhaustive inside the stated bounds, which is the right level for a totality property whose witnesses are small.",
          "Trusts: the catalogue of schemas/files in internal/gen as the bound; Go runtime panics are the only failure signal besides the 120 s no-progress watchdog.",
          "DESIGN.md §6 C01"),
+ "C02": ("exploration", "bounded-exhaustive enumeration of inputs (E1 sweep) with a range walker and an independent position calculator",
+         "Every range in every result of the E1 product (all entry points, rune-boundary cursors) is checked: names a file of the path it is reported for, 0<=start<=end<=len, line/column recomputed from the bytes. Exhaustive inside the stated bounds.",
+         "Trusts the independent calculator (newline count + grapheme clusters via textseg); schema-supplied sentinel ranges are exempt as the property says.",
+         "DESIGN.md §6 C02"),
+ "C06": ("exploration", "bounded-exhaustive enumeration of inputs (E1 sweep) plus population worlds around the candidate limit",
+         "Per-candidate oracle on every completion result of the E1 product with prefill off and on (edit applicability, tab-stop grammar), list length against the limit.",
+         "Snippet grammar parsed with a small regular grammar honouring backslash-dollar; catalogue texts contain no dollar signs of their own.",
+         "DESIGN.md §6 C06"),
+ "C12": ("exploration", "bounded-exhaustive enumeration of inputs (E1 sweep), safety oracle on every hover result",
+         "Hover at every cursor of every file: nil/error or non-empty content with a range containing the cursor in the requested file.",
+         "Exactness of the content against the effective schema is checked only on generator-built files.",
+         "DESIGN.md §6 C12"),
+ "C13": ("exploration", "bounded-exhaustive enumeration of inputs (E1 sweep), structural oracle on every token list",
+         "Token lists of every file incl. broken ones: sorted, disjoint, non-empty, advertised types, well-formed ranges.",
+         "Exactness of the token set is checked only on generator-built files.",
+         "DESIGN.md §6 C13"),
+ "C20": ("exploration", "bounded-exhaustive enumeration of inputs (E1 sweep) and generated call grammar",
+         "Signature help at every cursor: known function, parameter list = fixed ++ variadic, active index valid.",
+         "Function set is the catalogue's (0..2 fixed parameters, variadic, namespaced, parameterless).",
+         "DESIGN.md §6 C20"),
 }
 
 NOT_APPLICABLE = {
